@@ -469,3 +469,8 @@ mod test {
         assert_eq!(result, subscriptions[..2].iter().collect());
     }
 }
+
+#[cfg(kani)]
+pub(crate) mod verif {
+    include!(concat!(env!("LIBP2P_VERIF"), "/hooks/gossipsub_subscription_filter.rs"));
+}
